@@ -69,6 +69,12 @@ class World(object):
         self.waits = 0
         self.caller_done = False
         self.started_after_return = 0
+        self.cond = None              # the executor's (pump) condition
+        self.deferred = 0             # completions another thread wanted to deliver while the executor lock was held
+        self.taken = 0
+        self.delivered = 0
+        self.ran_inside_next = 0
+        self.deferred_total = 0
 
     # -- completion ------------------------------------------------------------------------------
     def _complete(self, idx, rf):
@@ -124,6 +130,17 @@ class PumpCondition(object):
     def __init__(self, lock=None):
         self.world = CURRENT[0]
         self.depth = 0
+        if self.world is not None:
+            self.world.cond = self
+
+    def _released(self):
+        # completions that "another thread" tried to deliver while the lock was held get it now
+        w = self.world
+        if self.depth == 0 and w is not None and w.deferred:
+            k, w.deferred = w.deferred, 0
+            for _ in range(k):
+                if not w.pump_one():
+                    break
 
     def acquire(self, *a, **kw):
         self.depth += 1
@@ -131,6 +148,7 @@ class PumpCondition(object):
 
     def release(self):
         self.depth -= 1
+        self._released()
 
     def __enter__(self):
         self.depth += 1
@@ -138,6 +156,7 @@ class PumpCondition(object):
 
     def __exit__(self, *a):
         self.depth -= 1
+        self._released()
         return False
 
     def wait(self, timeout=None):
@@ -227,6 +246,47 @@ class StubSession(object):
             self.world.tasks.append((fn, a, kw))
 
 
+class LazyInput(object):
+    """A lazy statement / parameter source that does work when pulled (map(make_params, rows), a generator reading a file ...):
+    while ``__next__`` runs, other threads get the processor and deliver completions of executions already in flight.
+
+    pump engine: a completion is delivered inside ``__next__`` only if the executor's lock is free (a real completion thread would
+    block on it otherwise); if it is held the delivery happens when the lock is released.  threads engine: ``__next__`` yields until the
+    completer threads have delivered what is pending (bounded to ~2 ms: they may be blocked on the executor's lock)."""
+
+    def __init__(self, world, items, how):
+        self.w, self.items, self.how, self.i = world, list(items), how, 0
+
+    def __iter__(self):
+        return self
+
+    def __next__(self):
+        w = self.w
+        with w.lock:
+            i = self.i
+            self.i += 1
+        if w.threaded:
+            t_end = time.perf_counter() + 0.002
+            while time.perf_counter() < t_end:
+                with w.lock:
+                    if not w.pending and w.delivered == w.taken:
+                        break
+                time.sleep(0)
+        else:
+            k = len(w.pending) + len(w.tasks) if self.how == "all" else w.rng.randint(0, len(w.pending) + len(w.tasks))
+            if w.cond is None or w.cond.depth == 0:
+                for _ in range(k):
+                    if not w.pump_one():
+                        break
+                    w.ran_inside_next += 1
+            else:
+                w.deferred += k
+                w.deferred_total += k
+        if i >= len(self.items):
+            raise StopIteration
+        return self.items[i]
+
+
 # ------------------------------------------------------------------------------------------ running one scenario
 def make_input(n, with_args):
     if with_args:
@@ -240,18 +300,20 @@ def call_driver(C, session, n, variant, fail_fast, concurrency, with_args, as_it
         if variant == "async":
             stmts = make_input(n, False)
             if as_iterator:
-                stmts = iter(stmts)
+                stmts = iter(stmts) if as_iterator is True else LazyInput(session.world, stmts, as_iterator)
             f = C.execute_concurrent_async(session, stmts, concurrency=concurrency, raise_on_first_error=fail_fast)
             return ("return", f)
         gen = variant == "gen"
         if with_args:
             st, params = make_input(n, True)
+            if as_iterator and as_iterator is not True:
+                params = LazyInput(session.world, params, as_iterator)
             r = C.execute_concurrent_with_args(session, st, params, concurrency=concurrency, raise_on_first_error=fail_fast,
                                                results_generator=gen)
         else:
             stmts = make_input(n, False)
             if as_iterator:
-                stmts = iter(stmts)
+                stmts = iter(stmts) if as_iterator is True else LazyInput(session.world, stmts, as_iterator)
             r = C.execute_concurrent(session, stmts, concurrency=concurrency, raise_on_first_error=fail_fast, results_generator=gen)
     except Hang:
         raise
@@ -424,6 +486,10 @@ def run_pump(ctx, C, RF, kinds, concurrency, variant, fail_fast, order, rng, wit
     ctx.count("statements_started_after_the_call_returned", w.started_after_return)
     ctx.count("exceptions_raised_into_the_event_loop_side", len(w.loop_exceptions))
     ctx.count("condition_waits_pumped", w.waits)
+    if as_iterator and as_iterator is not True:
+        ctx.count("runs_with_lazy_input")
+        ctx.count("completions_delivered_inside_input_next", w.ran_inside_next)
+        ctx.count("completions_deferred_until_lock_release", w.deferred_total)
     if w.peak > w.concurrency:
         ctx.violation("in-flight-exceeds-concurrency", "%s: peak of %d executions in flight with concurrency=%d (after the call returned)" % (
             variant, w.peak, concurrency), wit)
@@ -435,12 +501,14 @@ def run_pump(ctx, C, RF, kinds, concurrency, variant, fail_fast, order, rng, wit
             ctx.violation("async-future-not-completed", "future still pending after every execution finished", wit)
 
 
-def run_threads(ctx, C, RF, kinds, concurrency, variant, fail_fast, rng, ncompleters):
+def run_threads(ctx, C, RF, kinds, concurrency, variant, fail_fast, rng, ncompleters, lazy=False):
     w = World(kinds, concurrency, "random", rng, threaded=True)
     session = StubSession(w, RF)
     wit = {"engine": "threads", "kinds": kinds, "concurrency": concurrency, "variant": variant, "fail_fast": fail_fast,
-           "completers": ncompleters}
-    ctx.case(("threads", kinds, concurrency, variant, fail_fast, ncompleters, rng.getrandbits(32)))
+           "completers": ncompleters, "lazy_input": lazy}
+    ctx.case(("threads", kinds, concurrency, variant, fail_fast, ncompleters, lazy, rng.getrandbits(32)))
+    if lazy:
+        ctx.count("runs_threads_with_lazy_input")
     ctx.count("runs_threads")
     box = {}
     stop = threading.Event()
@@ -449,7 +517,7 @@ def run_threads(ctx, C, RF, kinds, concurrency, variant, fail_fast, rng, ncomple
 
     def caller():
         try:
-            box["outcome"] = call_driver(C, session, len(kinds), variant, fail_fast, concurrency, False, False)
+            box["outcome"] = call_driver(C, session, len(kinds), variant, fail_fast, concurrency, False, "all" if lazy else False)
         except BaseException as e:
             box["crash"] = e
 
@@ -464,6 +532,8 @@ def run_threads(ctx, C, RF, kinds, concurrency, variant, fail_fast, rng, ncomple
                     item = ("task", w.tasks.pop(0))
                 elif w.pending:
                     item = ("future", w.pending.pop(r.randrange(len(w.pending))))
+                if item is not None:
+                    w.taken += 1
             if item is None:
                 if stop.is_set():
                     return
@@ -481,6 +551,8 @@ def run_threads(ctx, C, RF, kinds, concurrency, variant, fail_fast, rng, ncomple
                     w.loop_exceptions.append(e)
             else:
                 w._complete(*item[1])
+            with w.lock:
+                w.delivered += 1
 
     tc = threading.Thread(target=caller, daemon=True)
     comps = [threading.Thread(target=completer, args=(s,), daemon=True) for s in seeds]
@@ -538,7 +610,8 @@ def run(ctx):
 
     ctx.rule = ("pump engine: every behaviour vector over {S,F,R,A,E} (sync ok, sync fail, execute_async raises, async ok, async fail) with "
                 "n <= %d statements x concurrency 1..n (+ n+3) x {list, generator, async future} x {collect-all, fail-fast} x pump order "
-                "{fifo, lifo, seeded}; seeded random vectors with n <= 12, with_args / iterator inputs; n = 0; threads engine: seeded random "
+                "{fifo, lifo, seeded}; seeded random vectors with n <= 12, with_args / iterator / lazy inputs (a source whose __next__ lets pending completions be delivered: "
+                "at once when the executor lock is free, at its release otherwise); n = 0; threads engine: seeded random "
                 "vectors with 1-3 completer threads. distinct = (engine, vector, concurrency, variant, fail-fast, order/seed)" % (4 if ctx.quick else 5))
     ctx.assume("'first failure' = the first failure produced (exception raised by execute_async or failure delivered to the errback) for the "
                "list and future variants (exact in the pump engine, membership only with real threads); for the generator variant the failure "
@@ -569,6 +642,10 @@ def run(ctx):
                         orders = ["fifo", "lifo", "seeded"] if ("A" in kinds or "E" in kinds) else ["fifo"]
                         for order in orders:
                             run_pump(ctx, C, RF, kinds, conc, variant, ff, order, rng)
+                        if len(orders) > 1:      # something completes later: a lazy input lets it complete while statements are pulled
+                            run_pump(ctx, C, RF, kinds, conc, variant, ff, "fifo", rng, as_iterator="all")
+                            run_pump(ctx, C, RF, kinds, conc, variant, ff, "seeded", rng, as_iterator="some",
+                                     with_args=(variant != "async"))
             if ctx.n_violations > 20:
                 break
         ctx.count("exhaustive_vectors_up_to_n", nmax)
@@ -583,7 +660,7 @@ def run(ctx):
             variant, ff = rng.choice(VARIANTS)
             conc = rng.choice([1, 2, 3, n - 1, n, n + 5, rng.randint(1, n)])
             run_pump(ctx, C, RF, kinds, max(1, conc), variant, ff, rng.choice(["fifo", "lifo", "seeded", "seeded"]), rng,
-                     with_args=(variant != "async" and rng.random() < 0.3), as_iterator=rng.random() < 0.3)
+                     with_args=(variant != "async" and rng.random() < 0.3), as_iterator=rng.choice([False, False, True, "all", "some", "some"]))
         # arguments the documentation rejects
         for variant in ("list", "async"):
             w = World("S", 1, "fifo", rng, False)
@@ -603,7 +680,9 @@ def run(ctx):
             weights = rng.choice([(1, 1, 1, 3, 2), (0, 0, 0, 1, 0), (1, 0, 0, 4, 1), (1, 1, 1, 1, 1)])
             kinds = "".join(rng.choices(KINDS, weights=weights, k=n))
             variant, ff = rng.choice(VARIANTS)
-            run_threads(ctx, C, RF, kinds, rng.randint(1, n + 1), variant, ff, rng, rng.randint(1, 3))
+            lazy = rng.random() < 0.35
+            conc = rng.choice([max(1, n - 1), n, n + 1, 100]) if lazy else rng.randint(1, n + 1)
+            run_threads(ctx, C, RF, kinds, conc, variant, ff, rng, rng.randint(1, 3), lazy=lazy)
     finally:
         C.Condition, C.Future = real_condition, real_future
         CURRENT[0] = None
@@ -611,4 +690,5 @@ def run(ctx):
     ctx.floor_distinct = 5000
     ctx.floor_counters = {"runs_pump": 5000, "runs_threads": 100, "oracle_result_list_checks": 2000, "oracle_first_failure_checks": 1000,
                           "oracle_future_checks": 1000, "oracle_inflight_checks": 5000, "condition_waits_pumped": 5000,
-                          "late_completions_after_return": 100}
+                          "late_completions_after_return": 100, "runs_with_lazy_input": 1000,
+                          "completions_deferred_until_lock_release": 500, "runs_threads_with_lazy_input": 30}
